@@ -147,3 +147,23 @@ fn k_box_from_vec_then_alloc() {
     kani::cover!(true);
     core::mem::forget(bs); core::mem::forget(b);
 }
+
+/// zero-sized elements: the length check of the slice -> array conversion cannot be replaced by a byte-size check (C17)
+#[kani::proof]
+#[kani::unwind(12)]
+#[kani::stub(Bump::alloc_layout_slow, no_slow)]
+fn k_box_zst_slice_to_array() {
+    let b = mk_bump::<1>(448);
+    let arr: Box<[(); 3]> = Box::new_in([(); 3], &b);
+    let sl: Box<[()]> = arr.into();
+    assert!(sl.len() == 3);
+    let wrong: Result<Box<[(); 2]>, Box<[()]>> = Box::try_from(sl);
+    assert!(wrong.is_err(), "C17 a zero-sized slice of another length is refused too");
+    let back = wrong.err().unwrap();
+    assert!(back.len() == 3);
+    let right: Result<Box<[(); 3]>, Box<[()]>> = Box::try_from(back);
+    assert!(right.is_ok());
+    kani::cover!(true);
+    drop(right);
+    core::mem::forget(b);
+}
